@@ -56,6 +56,9 @@ def run(ctx):
               'filter': mkcase('F%d' % i, lib.new_cfg(set=sets, filter=e), data), 'sort': mkcase('O%d' % i, lib.new_cfg(set=sets, sort=[e], select=['.=r', e + '=v']), data),
               'group': mkcase('G%d' % i, lib.new_cfg(set=sets, group=e), data), 'split': mkcase('P%d' % i, lib.new_cfg(set=sets, split=e), data),
               'macro': mkcase('M%d' % i, lib.new_cfg(set=sets + ['@mm=' + e], select=['@mm=v']), data),
+              # the alias / separator spelling in the other option positions too
+              'filterv': mkcase('FV%d' % i, lib.new_cfg(set=sets, filter=ev), data), 'sortv': mkcase('OV%d' % i, lib.new_cfg(set=sets, sort=[ev], select=['.=r', e + '=v']), data),
+              'groupv': mkcase('GV%d' % i, lib.new_cfg(set=sets, group=ev), data), 'splitv': mkcase('PV%d' % i, lib.new_cfg(set=sets, split=ev), data),
               'dot': None}
         if e.startswith('(') and re.match(r'\(([^\s().,"]+) \. ', e):
             cs['dot'] = mkcase('D%d' % i, lib.new_cfg(select=[re.sub(r'^\(([^\s().,"]+) \. ', r'(.\1 ', e) + '=v']), data)
@@ -132,6 +135,11 @@ def run(ctx):
                 idx = RECS.index(r['r'])
                 if r.get('v', '<nothing>') != vals[idx]: V('sort', 'the value is the same after --sort-by', json.dumps(r)[:300], json.dumps(vals[idx])[:300]); break
             if len(got) != sum(1 for v in vals if v != '<nothing>'): V('sort', '--sort-by keeps exactly the records on which the expression has a value', len(got), sum(1 for v in vals if v != '<nothing>'))
+        # the alias / separator spelling behaves in every option position as the plain spelling does there
+        for plain, var, where in (('filter', 'filterv', '--filter'), ('sort', 'sortv', '--sort-by'), ('group', 'groupv', '--group-by'), ('split', 'splitv', '--split-by')):
+            x, y = impl[cs[plain]['id']], impl[cs[var]['id']]
+            if (x['result'], x['stdout']) != (y['result'], y['stdout']):
+                V(var, 'the spelling with aliases and comma/space separators (%s) means the same in %s as in --select' % (ev, where), (y['result'] + ' ' + y['stdout'].decode('utf8', 'replace'))[:300], (x['result'] + ' ' + x['stdout'].decode('utf8', 'replace'))[:300])
     for e, one, two, srt, grp in smeta:
         a = impl[one['id']]
         if a['result'] != 'ok': continue
